@@ -130,7 +130,7 @@ def main():
     #     with VERIF_REPO pointing there: same as applying to /repo, but /repo and /verif/evidence stay untouched)
     if valid and "--no-check" not in sys.argv:
         SV = os.environ.get("SEEDVERIF", "/var/tmp/seedverif")
-        sh("git checkout -q --detach %s" % sh("git rev-parse main", cwd=ROOT)[1].strip(), cwd=SV)
+        sh("git checkout -q -f --detach %s" % sh("git rev-parse main", cwd=ROOT)[1].strip(), cwd=SV)
         report["verif_commit"] = sh("git rev-parse --short HEAD", cwd=SV)[1].strip()
         rc, out = sh("git apply %s" % patch, cwd=WT)
         if rc == 0:
